@@ -135,9 +135,74 @@ def check(run, project):
     run.cover(functions_reachable=len(reach), functions=[repr(r) for r in list(reach.values())[:8]])
     run.require(len(reach) >= 40, f"C12: only {len(reach)} reachable functions (call graph broken?)")
     keyspace = sum(1 for c in L.all.values() if c.is_subclass_of(L.TPMS_PARAMS) and c is not L.TPMS_PARAMS)
+    def class_def(mod_, name, depth=0):
+        r = project.resolve_name(mod_, name)
+        if r is None or r[1] is None:
+            return None
+        cm, cn = r
+        for st in cm.tree.body:
+            if isinstance(st, ast.ClassDef) and st.name == cn:
+                return cm, st
+        return None
+
+    def method_def(cls, meth, depth=0):
+        cm, cd = cls
+        for st in cd.body:
+            if isinstance(st, ast.FunctionDef) and st.name == meth:
+                return cm, st
+        if depth < 5:
+            for b in cd.bases:
+                if isinstance(b, ast.Name):
+                    bc = class_def(cm, b.id)
+                    if bc is not None:
+                        r = method_def(bc, meth, depth + 1)
+                        if r is not None:
+                            return r
+        return None
+
+    def writes_self(inst, meth, depth=0):
+        m = method_def(inst[0], meth)
+        if m is None:
+            return False
+        mm, md = m
+        me = md.args.args[0].arg if md.args.args else "self"
+        for x in ast.walk(md):
+            if isinstance(x, (ast.Attribute, ast.Subscript)) and isinstance(x.ctx, (ast.Store, ast.Del)) and norm(root_of(x)) == me:
+                return True
+            if isinstance(x, ast.Call) and isinstance(x.func, ast.Attribute) and norm(root_of(x.func.value)) == me:
+                if x.func.attr in MUTATORS and x.func.value is not root_of(x.func.value):
+                    return True
+                if depth < 3 and isinstance(x.func.value, ast.Name) and writes_self(inst, x.func.attr, depth + 1):
+                    return True
+        return False
+
+    def returns_self(inst, meth):
+        m = method_def(inst[0], meth)
+        if m is None:
+            return False
+        me = m[1].args.args[0].arg if m[1].args.args else "self"
+        rets = [r for r in ast.walk(m[1]) if isinstance(r, ast.Return) and r.value is not None]
+        return bool(rets) and all(norm(r.value) == me for r in rets)
+
+    inst_cache = {}
+
+    def module_instances(mod_):
+        """module-level names bound to an instance of a class defined in the repository"""
+        if mod_.name not in inst_cache:
+            out = {}
+            for st in mod_.tree.body:
+                if isinstance(st, ast.Assign) and len(st.targets) == 1 and isinstance(st.targets[0], ast.Name) \
+                        and isinstance(st.value, ast.Call) and isinstance(st.value.func, ast.Name):
+                    cd = class_def(mod_, st.value.func.id)
+                    if cd is not None:
+                        out[st.targets[0].id] = (cd, st.value.func.id)
+            inst_cache[mod_.name] = out
+        return inst_cache[mod_.name]
+
     for ref in reach.values():
         fn, mod = ref.node, ref.mod
         glob = module_level_names(mod)
+        instances = module_instances(mod)
         loc = local_names(fn) | enclosing_locals(fn)
         declared = set()
         for n in walk_no_nested(fn):
@@ -147,8 +212,21 @@ def check(run, project):
                        f"`{norm(n)}`: the function rebinds state that outlives the call", module=mod, node=n, func=ref.qual,
                        construct=norm(n))
 
+        # locals that are merely another name for a module-level object (`c = _SHARED` / `c = _SHARED.method()` returning self)
+        aliases = {}
+        for n in walk_no_nested(fn):
+            if isinstance(n, ast.Assign) and len(n.targets) == 1 and isinstance(n.targets[0], ast.Name):
+                v = n.value
+                src = v if isinstance(v, ast.Name) else (v.func.value if isinstance(v, ast.Call) and isinstance(v.func, ast.Attribute)
+                                                         and isinstance(v.func.value, ast.Name) else None)
+                if src is not None and src.id in instances and src.id not in loc - {n.targets[0].id}:
+                    if isinstance(v, ast.Name) or returns_self(instances[src.id], v.func.attr):
+                        aliases[n.targets[0].id] = src.id
+
         def is_shared(root):
             """does this receiver root denote a module-level / class-level object?"""
+            if isinstance(root, ast.Name) and root.id in aliases:
+                return f"module-level object `{aliases[root.id]}` (through the local `{root.id}`)"
             if isinstance(root, ast.Name):
                 if root.id in ("cls",) and root.id in loc:
                     return "class object `cls`"
@@ -183,6 +261,16 @@ def check(run, project):
                                node=n, func=ref.qual, construct=norm(n).splitlines()[0][:100])
             if isinstance(n, ast.Call):
                 f = n.func
+                # a method of a module-level instance of a repo class that writes to `self`
+                if isinstance(f, ast.Attribute) and isinstance(f.value, ast.Name) and f.attr not in MUTATORS:
+                    owner = f.value.id if f.value.id in instances and f.value.id not in loc else aliases.get(f.value.id)
+                    if owner is not None and writes_self(instances[owner], f.attr):
+                        n_sites += 1
+                        run.ob("P1", False, f"{ref} L{n.lineno}: `{norm(f)[:50]}(...)`",
+                               f"calls `{f.attr}` on the module-level object `{owner}` (an instance of {instances[owner][1]}), which writes "
+                               "to the object's attributes: per-decode state lives in an object shared by all decodes (two decoders "
+                               "advanced alternately corrupt each other)", module=mod, node=n, func=ref.qual,
+                               construct=norm(n).splitlines()[0][:100])
                 if isinstance(f, ast.Attribute) and f.attr in MUTATORS:
                     n_sites += 1
                     why = is_shared(root_of(f.value))
